@@ -231,14 +231,17 @@ def rootings_for(layer, pname, n, tier):
 
 
 def chunks(tier):
+    """One chunk = the (drawing, length assignment) items number j, j+P, j+2P, ... of a block of shapes."""
     b = bounds(tier)
+    q = tier == "quick"
     out = []
     for n in range(1, b["max_leaves"] + 1):
         ns = len(U.shapes(n))
-        step = {1: 1, 2: 1, 3: 1, 4: 1, 5: 4, 6: 12}[n]
+        step = {1: 1, 2: 1, 3: 1, 4: 1, 5: 1, 6: 16}[n]
+        parts = {1: 1, 2: 1, 3: 2, 4: 8 if q else 24, 5: 1 if q else 4, 6: 1}[n]
         for lo in range(0, ns, step):
-            out.append({"n": n, "lo": lo, "hi": min(ns, lo + step), "tier": tier})
-    # heavy chunks first would be nicer for balance; keep the natural order (deterministic)
+            for j in range(parts):
+                out.append({"n": n, "lo": lo, "hi": min(ns, lo + step), "part": j, "parts": parts, "tier": tier})
     return out
 
 
@@ -656,12 +659,19 @@ def run_chunk(chunk, ctx):
     n, tier = chunk["n"], chunk["tier"]
     b = bounds(tier)
     with_info = b["informational_leaf_targets"]
+    part, parts = chunk.get("part", 0), chunk.get("parts", 1)
+    item = -1
+    sampled = set()
     for si in range(chunk["lo"], chunk["hi"]):
         for layer, shape in drawings(n, si, tier):
-            ctx.count("drawings")
-            ctx.count("drawings_%s" % layer)
+            if part == 0:
+                ctx.count("drawings")
+                ctx.count("drawings_%s" % layer)
             seed_unif = len(shape) == 1 if not isinstance(shape, int) else False
             for pname, lens, dyadic, menu in length_patterns(layer, shape, n, tier):
+                item += 1
+                if item % parts != part:
+                    continue
                 sn = ref.mk(shape, lens=list(lens))
                 bf = Before(sn)
                 lens_defined = all(x is not None for x in lens[1:])
@@ -690,10 +700,11 @@ def run_chunk(chunk, ctx):
                         if op == "reroot_at_midpoint" and bf.midpoint_on_node(make_eq(dyadic)):
                             ctx.count("midpoint_calls_with_midpoint_on_existing_node")
                         res = run_case(case, ctx, bf, True)
-                        if layer == "base" and pname == "inc" and rooted is False and target in (None, 1) and not args.get("ub") \
-                                and op in ("reroot_at_midpoint", "reroot_at_edge", "to_outgroup_position") and n >= 4:
+                        if layer == "base" and pname == "inc" and rooted is False and n >= 4 and op not in sampled \
+                                and target in (None, 1) and not args.get("ub") and args.get("su", True):
+                            sampled.add(op)
                             ctx.sample({"tree": fmt(sn), "rooted": rooted, "op": op, "target_preorder_index": target,
-                                        "args": args, "verdict": res}, 3)
+                                        "args": args, "verdict": res}, 9)
         ctx.maximum("leaves", n)
     return None
 
